@@ -251,7 +251,8 @@ def correspondence(res):
             info = {"scenario": scn, "b_alone": a1["b"], "b_after_a": wa["b"], "shared_state_changed_by_a": wa["frame_diff"],
                     "cap_before_b_alone": a1["cap_before_b"], "cap_before_b_after_a": wa["cap_before_b"]}
             # fandango.logger.COLUMNS caches the terminal width for progress output (presentation only)
-            changed = set(wa["frame_diff"]) - {"fandango.logger.COLUMNS"}
+            # (an entry whose rendering is the same before and after -- e.g. a lexer slot set to None again -- carries nothing)
+            changed = {k for k, v in wa["frame_diff"].items() if v[0] != v[1]} - {"fandango.logger.COLUMNS"}
             only_cap = changed == {"fandango.language.grammar.nodes.MAX_REPETITIONS"}
             if only_cap and "max-repetitions-global" in sigs:
                 res.known(KNOWN_CAP)
